@@ -23,7 +23,16 @@ def main():
     if a.replay:
         sys.exit(mod.replay(a.replay))
     ctx = common.Ctx(a.pid, a.tier if a.tier in ('quick', 'thorough') else 'quick', seed)
-    mod.run(ctx)
+    try:
+        mod.run(ctx)
+    except Exception as e:       # noqa: BLE001 — safety net: never end in a bare traceback
+        import traceback
+        tb = traceback.format_exc()
+        in_repo = common.REPO in tb.split('harness')[-1] or ('symmray' in tb.splitlines()[-3] if len(tb.splitlines()) > 3 else False)
+        ctx.broken.append('the check could not complete: %s: %s' % (type(e).__name__, e))
+        ctx.violation('the implementation raised where the harness expects a result (%s: %s)' % (type(e).__name__, str(e)[:200]),
+                      {'oracle': 'harness safety net', 'exception': '%s: %s' % (type(e).__name__, e), 'traceback': tb[-3000:],
+                       'raised_inside_library': bool(in_repo)}, found_input=False)
     sys.exit(ctx.finish())
 
 
